@@ -29,6 +29,7 @@ type Link struct {
 	HasUnrel   bool
 	// HoldClientWrites: the client's reliable writes block (back pressure) until it is reset
 	HoldClientWrites bool
+	WriteResetErr    error
 	Params     transport.NegotiationParams
 }
 
@@ -42,6 +43,8 @@ type End struct {
 	isUn   bool
 }
 
+// (Link.WriteResetErr, when set, is what a client-side Write on the severed link fails with: the WebSocket back-ends
+// report close-status errors or raw socket errors there, not the library's "connection closed")
 func NewLink(idx int, unreliable bool, params transport.NegotiationParams) *Link {
 	l := &Link{Idx: idx, HasUnrel: unreliable, Params: params}
 	l.Client = &End{l: l, rd: &l.s2c, wr: &l.c2s, name: fmt.Sprintf("client#%d", idx)}
@@ -99,6 +102,9 @@ func (e *End) Write(b []byte) error {
 		return transport.ErrAlreadyClosed
 	}
 	if e.wr.broken || e.wr.eof {
+		if e.l.WriteResetErr != nil && e == e.l.Client {
+			return fmt.Errorf("sim: link #%d reset: %w", e.l.Idx, e.l.WriteResetErr)
+		}
 		return fmt.Errorf("sim: link #%d reset: %w", e.l.Idx, transport.ErrAlreadyClosed)
 	}
 	c := make([]byte, len(b))
